@@ -82,6 +82,8 @@ def _step(draw):
         "k_mode": draw(sampled_from(["draw", "draw", "max", "max-1", "one"])),
         "radius_deg": draw(sampled_from([0.0, 1.0, 30.0, 180.0]) | st.floats(0.0, 120.0)),
         "return_distance": draw(sampled_from([True, True, False])),
+        # the element kind is switched through the tree object's own public setter after the tree was obtained
+        "via_setter": draw(sampled_from([None, None, None] + KINDS)),
     }
 
 
@@ -162,7 +164,12 @@ def run_case(case, ctx):
             fails.append(Failure(oracle, site, k, f"step {si}: {detail}"))
 
         getter = g.get_ball_tree if tree_t == "ball" else g.get_kd_tree
-        tree = getter(coordinates=kind, coordinate_system=system, distance_metric=metric, reconstruct=st_["reconstruct"])
+        if st_.get("via_setter") and st_["via_setter"] != kind:
+            tree = getter(coordinates=st_["via_setter"], coordinate_system=system, distance_metric=metric, reconstruct=st_["reconstruct"])
+            tree.coordinates = kind
+            site += "+setter"
+        else:
+            tree = getter(coordinates=kind, coordinate_system=system, distance_metric=metric, reconstruct=st_["reconstruct"])
         ctx.ev("tree_reflects_request")
         got_cfg = (getattr(tree, "coordinates", None), getattr(tree, "coordinate_system", None), getattr(tree, "distance_metric", None))
         if got_cfg != (kind, system, metric):
